@@ -1829,6 +1829,8 @@ class UnitQuaternion(Quaternion):
 
         if not (0 <= s <= 1):
             raise ValueError('s must be in interval [0,1]')
+        if isinstance(s, np.floating):
+            s = float(s)  # (a NumPy float16 / float32 scalar would keep s * theta in its own precision)
 
         dot = base.inner(q1, q2)
 
